@@ -352,7 +352,7 @@ def _filtered_list(ex, elt, g, seq: Lst, p):
         sub.implicit_exc = False
         sub.index_ctx = ex.index_ctx + [idx]
         res = []
-        for q in sub.assign(g.target, seq.at(idx), symex.Path(p.cond, p.env), elt):
+        for q in sub.assign(g.target, seq.at(idx), symex.Path(p.cond, p.env, None, p.heap), elt):
             conds = [(q, [])]
             for c in g.ifs:
                 conds = [(q3, ts + [truth(v)]) for (q2, ts) in conds for (q3, v) in sub.ev(c, q2)]
